@@ -6,6 +6,7 @@ import (
 	"encoding/hex"
 	"encoding/json"
 	"fmt"
+	"io"
 	"regexp"
 	"sort"
 	"strconv"
@@ -15,7 +16,10 @@ import (
 	"time"
 
 	"github.com/jdillenkofer/pithos/internal/storage"
+	"github.com/jdillenkofer/pithos/internal/storage/database"
+	"github.com/jdillenkofer/pithos/internal/storage/metadatapart/partstore"
 	"github.com/jdillenkofer/pithos/verif/mc/ev"
+	"github.com/jdillenkofer/pithos/verif/mc/fault"
 	"github.com/jdillenkofer/pithos/verif/mc/pmap"
 	"github.com/jdillenkofer/pithos/verif/mc/world"
 )
@@ -41,6 +45,11 @@ type Spec struct {
 	World func(stack string) *world.World
 	// Under returns the storage the driver talks to (default: w.Storage).
 	Under func(w *world.World) storage.Storage
+	// Faults enables fault enumeration for every transition: the op is re-run once per fault
+	// site it touches (part-store calls, write-transaction begin, commit, body reads) with that
+	// site failing. FaultOracle is evaluated on each such run (default: no-trace oracle).
+	Faults      bool
+	FaultOracle func(c *StepCtx, preDB, postDB string) []Diff
 	// Extra is an additional oracle evaluated in the worker after the last op.
 	Extra func(c *StepCtx) []Diff
 	// Classify maps a diff to the finding class used for known-findings matching (default: class:field).
@@ -80,11 +89,15 @@ type job struct {
 }
 
 type stepResult struct {
-	Key     string `json:"key"`
-	Res     Res    `json:"res"`
-	Diffs   []Diff `json:"diffs,omitempty"`
+	Key     string   `json:"key"`
+	Res     Res      `json:"res"`
+	Diffs   []Diff   `json:"diffs,omitempty"`
 	Classes []string `json:"classes,omitempty"` // finding class per diff
-	Trace   string `json:"trace,omitempty"` // replay divergence: harness error, not a violation
+	Trace   string   `json:"trace,omitempty"`   // replay divergence: harness error, not a violation
+	// fault enumeration counters
+	FaultRuns   int            `json:"fault_runs,omitempty"`
+	FaultFailed int            `json:"fault_failed,omitempty"` // runs in which the op returned an error
+	FaultSites  map[string]int `json:"fault_sites,omitempty"`
 }
 
 var vidRe = regexp.MustCompile(`"v(\d+)"`)
@@ -214,7 +227,7 @@ func RunStep(t *testing.T, j job) (res stepResult) {
 				ctx.Pre, _ = d.Observe(spec.Buckets, spec.Keys)
 			}
 			if spec.NoTrace {
-				h, err := DumpHidden(context.Background(), w.RawDB, w.FSDirs)
+				h, err := DumpHidden(context.Background(), w.RawDB, nil)
 				if err != nil {
 					res.Trace = "dump: " + err.Error()
 					return
@@ -244,14 +257,8 @@ func RunStep(t *testing.T, j job) (res stepResult) {
 				res.Diffs = append(res.Diffs, immutabilityDiffs(ctx)...)
 			}
 			if spec.NoTrace && ctx.ImplR.Err != "" {
-				a, _ := json.Marshal(ctx.Pre)
-				b, _ := json.Marshal(ctx.Post)
-				if string(a) != string(b) {
-					res.Diffs = append(res.Diffs, Diff{Class: "notrace", Where: "api-state after failed " + j.Op.Short(), Model: "unchanged", Impl: "changed", Detail: firstDiff(string(a), string(b))})
-				}
-				if preHidden != hidden {
-					res.Diffs = append(res.Diffs, Diff{Class: "notrace", Where: "stored-state after failed " + j.Op.Short(), Model: "unchanged", Impl: "changed", Detail: lineDiff(preHidden, hidden)})
-				}
+				postDB, _ := DumpHidden(context.Background(), w.RawDB, nil)
+				res.Diffs = append(res.Diffs, NoTraceDiffs(ctx, preHidden, postDB)...)
 			}
 			if spec.Extra != nil {
 				res.Diffs = append(res.Diffs, spec.Extra(ctx)...)
@@ -267,10 +274,105 @@ func RunStep(t *testing.T, j job) (res stepResult) {
 			}
 		}
 		ob, _ := json.Marshal(zeroLastMod(ctx.Post))
-		h := sha256.Sum256([]byte(renumberVIDs(string(ob) + "\n" + modelKey(m, spec.Buckets, spec.Keys)) + "\n" + hidden))
+		h := sha256.Sum256([]byte(renumberVIDs(string(ob)+"\n"+modelKey(m, spec.Buckets, spec.Keys)) + "\n" + hidden))
 		res.Key = hex.EncodeToString(h[:12])
 	})
+	if spec.Faults && j.Op != nil && res.Trace == "" {
+		runFaults(t, spec, j, &res)
+	}
 	return res
+}
+
+// runFaults re-executes the last op of j once per fault site with that site failing.
+func runFaults(t *testing.T, spec *Spec, j job, res *stepResult) {
+	res.FaultSites = map[string]int{}
+	n := 1 // discovered from the record run
+	for k := 0; k <= n; k++ {
+		k := k
+		synctest.Test(t, func(t *testing.T) {
+			inj := &fault.Injector{}
+			w := world.New(world.Config{Stack: j.Stack,
+				WrapDB: func(db database.Database) database.Database { return &fault.DB{Inner: db, Inj: inj} },
+				WrapPartStore: func(name string, ps partstore.PartStore) partstore.PartStore {
+					return &fault.PartStore{Name: name, Inner: ps, Inj: inj}
+				}})
+			defer w.Destroy()
+			defer inj.InstallHooks()()
+			d := NewDriver(w.Storage)
+			d.WrapBody = func(r io.Reader, size int) io.Reader { return &fault.Body{R: r, Inj: inj, First: (size + 1) / 2} }
+			m := NewModel()
+			for _, op := range j.Path {
+				time.Sleep(spec.Step)
+				ri := d.Apply(op, m)
+				m.Apply(op, &ri)
+			}
+			ctx := &StepCtx{Spec: spec, Stack: j.Stack, W: w, D: d, M: m, Path: j.Path, Op: *j.Op}
+			ctx.Pre, _ = d.Observe(spec.Buckets, spec.Keys)
+			preDB, err := DumpHidden(context.Background(), w.RawDB, nil)
+			if err != nil {
+				res.Trace = "dump: " + err.Error()
+				return
+			}
+			time.Sleep(spec.Step)
+			inj.Arm(k)
+			ctx.ImplR = d.Apply(*j.Op, m)
+			inj.Disarm()
+			if k == 0 {
+				n = len(inj.Sites)
+				return
+			}
+			res.FaultRuns++
+			res.FaultSites[inj.Fired]++
+			if ctx.ImplR.Err == "" {
+				return // the failure was absorbed (e.g. a best-effort step): the op is not a failed op
+			}
+			res.FaultFailed++
+			ctx.Post, _ = d.Observe(spec.Buckets, spec.Keys)
+			postDB, err := DumpHidden(context.Background(), w.RawDB, nil)
+			if err != nil {
+				res.Trace = "dump: " + err.Error()
+				return
+			}
+			var diffs []Diff
+			if spec.FaultOracle != nil {
+				diffs = spec.FaultOracle(ctx, preDB, postDB)
+			} else {
+				diffs = NoTraceDiffs(ctx, preDB, postDB)
+			}
+			for _, df := range diffs {
+				df.Where = fmt.Sprintf("fault@%d(%s): %s", k, inj.Fired, df.Where)
+				res.Diffs = append(res.Diffs, df)
+				res.Classes = append(res.Classes, df.Class+":"+siteKind(inj.Fired))
+			}
+		})
+		if res.Trace != "" {
+			return
+		}
+	}
+}
+
+func siteKind(site string) string {
+	if i := strings.IndexByte(site, '#'); i >= 0 {
+		site = site[:i]
+	}
+	if i := strings.IndexByte(site, '.'); i >= 0 && !strings.HasPrefix(site, "db.") && !strings.HasPrefix(site, "tx.") && !strings.HasPrefix(site, "body.") {
+		site = "partstore" + site[i:]
+	}
+	return site
+}
+
+// NoTraceDiffs: a failed operation leaves the API-visible state and the database as they were.
+func NoTraceDiffs(c *StepCtx, preDB, postDB string) []Diff {
+	var out []Diff
+	a, _ := json.Marshal(c.Pre)
+	b, _ := json.Marshal(c.Post)
+	if string(a) != string(b) {
+		out = append(out, Diff{Class: "notrace", Where: "api-state after failed " + c.Op.Short() + " (" + c.ImplR.Err + ")", Model: "unchanged", Impl: "changed", Detail: firstDiff(string(a), string(b))})
+	}
+	if preDB != postDB {
+		out = append(out, Diff{Class: "notrace", Where: "database after failed " + c.Op.Short() + " (" + c.ImplR.Err + ")", Model: "unchanged", Impl: "changed", Detail: lineDiff(preDB, postDB)})
+	}
+	return out
 }
 
 func resKey(r Res) string {
@@ -449,6 +551,9 @@ type Search struct {
 	Unasserted          map[string]int
 	Pruned              int
 	DepthDone           map[string]int
+	FaultRuns           int
+	FaultFailed         int
+	FaultSites          map[string]int
 }
 
 func (s *Search) replayModel(st state) *Model {
@@ -614,6 +719,14 @@ func (s *Search) harnessError(stack string, st state, op *Op, msg string) {
 func (s *Search) judge(stack string, st state, op Op, r stepResult) bool {
 	out := op.Kind + ":" + orOK(r.Res.Err)
 	s.Outcomes[out]++
+	s.FaultRuns += r.FaultRuns
+	s.FaultFailed += r.FaultFailed
+	if s.FaultSites == nil {
+		s.FaultSites = map[string]int{}
+	}
+	for k, v := range r.FaultSites {
+		s.FaultSites[siteKind(k)] += v
+	}
 	if len(r.Diffs) == 0 {
 		return true
 	}
@@ -642,6 +755,11 @@ func (s *Search) Coverage() {
 	c["distinct_outcomes"] = len(s.Outcomes)
 	c["stacks"] = s.Stacks
 	c["pruned_successors_after_disagreement"] = s.Pruned
+	if s.FaultRuns > 0 {
+		c["fault_runs"] = s.FaultRuns
+		c["fault_runs_in_which_the_op_failed"] = s.FaultFailed
+		c["fault_site_kinds"] = s.FaultSites
+	}
 	if len(s.Unasserted) > 0 {
 		c["disagreements_in_aspects_asserted_by_other_properties"] = s.Unasserted
 	}
@@ -674,6 +792,14 @@ func (s *Search) Merge(o *Search) {
 	s.States += o.States
 	s.Transitions += o.Transitions
 	s.Pruned += o.Pruned
+	s.FaultRuns += o.FaultRuns
+	s.FaultFailed += o.FaultFailed
+	for k, v := range o.FaultSites {
+		if s.FaultSites == nil {
+			s.FaultSites = map[string]int{}
+		}
+		s.FaultSites[k] += v
+	}
 	for k, v := range o.Outcomes {
 		s.Outcomes[k] += v
 	}
